@@ -14,6 +14,11 @@ CLAIMED = {
         design="4/C13",
         note="Trusted: Coq kernel+vm_compute; ast translator for the gate kernels; numpy semantics of masks/views; group<->state link checked numerically (oracle), not proved.",
         technique="Coq proof (per-row conjugation theorems, all n) + source-to-Coq translator with generated equality lemmas + vm_compute correspondence"),
+    "C02": dict(
+        text="Coq theorem over Model V: an explicit inductive invariant (per node: id uniqueness, register table consistency, positions of a register's simulated qubits injective/bounded/as many as the register size; network-wide: backing map held qubit -> simulated qubit total, injective and onto, ghost identities aligned) holds in every state reachable by ANY operation list on ANY network (failed operations included); corollaries: backed by exactly one existing simulated qubit, no sharing/no orphan, positions are a permutation of 0..k-1, ids unique, exact population deltas per operation. Tie: dump equality after every operation + an id()-based walk of the real object graph evaluating the same invariant.",
+        design="4/C02",
+        note="Trusted: Coq kernel; in-process harness (direct wiring / real PB in memory, virtual clock, scripted coin); sequential semantics (quiescent points only); tableau shape facts are not part of this invariant.",
+        technique="Coq proof (inductive invariant preserved by every case of every operation, induction over operation lists) + vm_compute correspondence + object-graph oracle"),
     "C05": dict(
         text="Coq theorems over Model V (sequential semantics of the virtual-node network) for every state and operation: a refused operation returns the whole network state unchanged (refusal_atomic), "
              "iff-tables for every refusal cause, no undocumented failure; model tied to the code by step-by-step dump equality (bookkeeping + exact generator matrices + returned value / exception class) on random and scripted histories.",
